@@ -58,7 +58,7 @@ Proof.
   assert (Jw : forall st', loops st' = loops st -> justified c (tr ++ [(st, e, oo)]) st').
   { intros st' Hl i lp Hn Hp. rewrite Hl in Hn. destruct (J i lp Hn Hp) as [s0 [o [k [Hin Hd]]]].
     exists s0, o, k. split; [apply in_or_app; left; exact Hin|exact Hd]. }
-  destruct e as [a|a| |i order|i|src eth p hk|q]; cbn [step fst].
+  destruct e as [a|a| |i order|i|src eth p hk|q| ]; cbn [step fst].
   - unfold start_hunt. destruct (is4 (a_ip a)); [apply Jw; reflexivity|].
     destruct (is6 (a_ip a) && negb (is_llu (a_ip a))); [apply Jw; reflexivity|].
     destruct (al_has (hunt st) (a_mac a)); [apply Jw; reflexivity|].
@@ -97,6 +97,7 @@ Proof.
     destruct (negb hk); [apply Jw; reflexivity|].
     destruct (ra_options p); try (apply Jw; reflexivity).
     destruct (rt_find (routers st) src); apply Jw; reflexivity.
+  - apply Jw. reflexivity.
   - apply Jw. reflexivity.
 Qed.
 
